@@ -35,8 +35,8 @@ import (
 	"github.com/zen-eth/shisui/state"
 	"github.com/zen-eth/shisui/storage"
 	"github.com/zen-eth/shisui/storage/pebble"
-	"github.com/zen-eth/shisui/validation"
 	htypes "github.com/zen-eth/shisui/types/history"
+	"github.com/zen-eth/shisui/validation"
 
 	"verifharness/netsim"
 )
@@ -401,10 +401,7 @@ func (x *runner) seedWorld() error {
 	put := func(key, content []byte) {
 		guard(func() callResult { return callResult{err: hn.Store.Put(key, hn.P.ToContentId(key), content)} })
 	}
-	heads := map[string][]byte{}
-	for _, v := range x.vs.bySel["history"][0] {
-		heads[string(v.key[1:])] = v.content
-	}
+	heads := x.vs.heads
 	for _, sel := range []int{1, 2} {
 		for _, v := range x.vs.bySel["history"][sel] {
 			if c, ok := heads[string(v.key[1:])]; ok && v.src != "100.yaml" {
